@@ -61,4 +61,4 @@ impl KempstonMouse {
 
 #[cfg(kani)]
 #[path = "/verif/hooks/core/kempston_mouse.rs"]
-mod verif_hooks;
+pub(crate) mod verif_hooks;
